@@ -316,9 +316,6 @@ func childRoundTrip(r *lib.Run) {
 	for i, tc := range cases {
 		r.Case(map[string]interface{}{"mode": "roundtrip", "index": i, "case": tc})
 		runRoundTrip(r, master, tc)
-		if i%97 == 5 {
-			r.Sample(map[string]interface{}{"roundtrip": tc})
-		}
 		if r.Violations() > 20 {
 			break
 		}
@@ -517,7 +514,7 @@ func childFuzzDecompress(r *lib.Run) {
 			r.Violation(lib.Sig{"op": "decode", "helper": helper, "class": "non-gzip-input-altered", "input": hc}, detail)
 		}
 		r.Nontrivial(fmt.Sprintf("%s/%s/%x", helper, in.Gen, sha8(in.Data)))
-		if i%1999 == 7 {
+		if i == 7 || i == 4007 {
 			r.Sample(map[string]interface{}{"helper": helper, "gen": in.Gen, "header_class": hc, "input_hex": hexCap(in.Data)})
 		}
 	}
@@ -588,7 +585,7 @@ func childFuzzDecrypt(r *lib.Run) {
 			r.Count("decrypt_rejected", 1)
 		}
 		r.Nontrivial(fmt.Sprintf("Decrypt/%s/%d", gen, i))
-		if i%997 == 3 {
+		if i == 3 || i == 1501 {
 			r.Sample(map[string]interface{}{"helper": "Decrypt", "gen": gen, "input_len": len(in), "key_len": len(useKey)})
 		}
 	}
@@ -709,7 +706,7 @@ func childFuzzHTTP(r *lib.Run) {
 			r.Violation(lib.Sig{"op": "decode", "helper": helper, "class": "decode-differs", "input": hc}, detail)
 		}
 		r.Nontrivial(fmt.Sprintf("%s/%s/%x", helper, in.Gen, sha8(in.Data)))
-		if i%997 == 11 {
+		if i == 11 || i == 1511 {
 			r.Sample(map[string]interface{}{"helper": helper, "gen": in.Gen, "header_class": hc, "input_hex": hexCap(in.Data)})
 		}
 	}
@@ -778,6 +775,12 @@ func main() {
 	}
 	// part 1: round trips against a real cluster (in a child: the client code under
 	// test runs in that process)
+	// the first cases of the round-trip list, written out (the list is a pure function of seed and tier)
+	for i, tc := range roundTripCases(r) {
+		if i == 1 || i == 130 {
+			r.Sample(map[string]interface{}{"roundtrip": tc, "fetches": "ReadUrlAsStream, ReadUrl, StreamContent: full + 6 ranged windows"})
+		}
+	}
 	// part 2 (decoder fuzzing, one child per helper group) runs beside it
 	var wg sync.WaitGroup
 	for _, m := range []string{"fuzz-decompress", "fuzz-decrypt", "fuzz-http"} {
